@@ -179,3 +179,6 @@ Lemma arange_cols (xmin res : R) (j : nat) : arange_nth (xmin + 1 / 2 * res) res
 Proof. unfold arange_nth, grid_xc. ring. Qed.
 Lemma arange_rows (ymax res : R) (i : nat) : arange_nth (ymax - 1 / 2 * res) (- res) i = grid_yc ymax res i.
 Proof. unfold arange_nth, grid_yc. ring. Qed.
+
+Lemma triple_eq (a a' b b' c c' : R) : a = a' -> b = b' -> c = c' -> (a, b, c) = (a', b', c').
+Proof. intros -> -> ->. reflexivity. Qed.
